@@ -97,6 +97,8 @@ def panel_transformers():
     add("tabularizer", lambda: Tabularizer())
     add("column_concat", lambda: ColumnConcatenator())
     add("paa", lambda: PAA(num_intervals=5))
+    add("paa3_len10", lambda: PAA(num_intervals=3))
+    L[-1]["tp"] = 10        # 10 / 3: fractional frames whose rounding goes through the last-frame fallback
     add("sax", lambda: SAX(word_length=4, alphabet_size=3, window_size=6), multivariate=False)
     add("interval_segmenter", lambda: IntervalSegmenter(3), multivariate=False)
     add("random_interval_segmenter", lambda: RandomIntervalSegmenter(n_intervals=3, random_state=0), multivariate=False)
